@@ -188,5 +188,11 @@ Lemma bad_vars_rejected_today :
                     | Err EDeser => true | _ => false end) bad_vars = true.
 Proof. vm_compute. reflexivity. Qed.
 
+Lemma odd_vars_load_today :
+  forallb (fun m => match run (de_vars (cfg_today sizes_x64)) (ser_vars m) with
+                    | Ok (m', []) => wfs_vars m' && list_N_eqb (ser_vars m') (ser_vars m)
+                    | _ => false end) odd_vars = true.
+Proof. vm_compute. reflexivity. Qed.
+
 Lemma x64_cap_ok : prealloc_cap * max_sz sizes_x64 <= isize_max.
 Proof. vm_compute. discriminate. Qed.
